@@ -67,6 +67,28 @@ CHECKS = {
         "realised outputs. Settings are set once per job in a private process.",
         design="4/C07",
     ),
+    "C05": dict(
+        text="Value direction: for every program of the bijective fragment and every well-typed value within bounds "
+        "(leaves symbolic), deserialize(T, serialize(T, v)) is executed symbolically end to end and must give back a value "
+        "structurally equal to v with the same runtime classes. Datum direction: for every accepted datum within bounds, "
+        "serialize(T, deserialize(T, d)) must equal the reference completion of d with defaults and re-deserialize to an "
+        "equal value. Under identity / prefix / camelCase aliasers and additional_properties.",
+        note="json.dumps/loads is inserted on replay only (C boundary). Standard-library converted types (UUID, date, "
+        "datetime, time, Decimal, bytes, Path, ip addresses, Pattern, deque) are run on concrete value pools selected by "
+        "forks and labelled realised: their C parsers reject proxies, so that part is enumeration, not a solver verdict.",
+        design="4/C05",
+    ),
+    "C08": dict(
+        text="Relational check with the unoptimised real code as oracle: for every program and every symbolic datum / value "
+        "within bounds, pairs of real runs must agree (results with runtime classes, and error lists): no_copy False/True "
+        "(plus: no container shared with the input when False, input never modified), override_dataclass_constructors "
+        "off/on, deserialize() vs deserialization_method(), serialize() vs serialization_method(), check_type on well-typed "
+        "values, PassThroughOptions flag sets completed by serialization_default, deserialization pass_through, and "
+        "PassThroughOptions(types=...) compiled before/after the plain method in the same process.",
+        note="Both members of each pair are compiled concretely per program; flag sets: singles + all + one mixed in quick, "
+        "all 31 non-empty in thorough.",
+        design="4/C08",
+    ),
 }
 
 NOT_YET = "check not built yet at this commit (work in progress, see DESIGN.md section 4)"
